@@ -314,12 +314,29 @@ func c16cases(thorough bool) []c16case {
 			for _, o := range os {
 				ids = append(ids, idOf(deepCopy(o)))
 			}
-			cs = append(cs, c16case{family: "like", kind: kind, want: "201", name: fmt.Sprintf("Like objects=%v %s", shortVals(os), kind),
-				body: Doc("Like", "", "actor", Alice, "object", val1(os), "to", Carol), liked: ids,
-				tweak: func(a *ap.App) {
-					a.PutDoc(Doc("Collection", Alice+"/liked", "items", L{"https://r9.example/liked/old1", "https://r9.example/liked/old2"}))
-				},
-				model: func(r *Ref) {}})
+			// the activity's 'actor' member may name the outbox owner, somebody else (another local actor
+			// with a liked collection of its own, a remote actor), several actors, or be absent: the ids
+			// go to the liked collection of the actor whose OUTBOX received the Like
+			for ai, actor := range []interface{}{Alice, Bob, L{Bob, Alice}, Emb("Person", Carol), nil} {
+				if ai > 0 && len(os) > 1 {
+					continue
+				}
+				body := Doc("Like", "", "actor", actor, "object", val1(os), "to", Carol)
+				an := ""
+				if actor == nil {
+					delete(body, "actor")
+					an = " actor=absent"
+				} else if ai > 0 {
+					an = " actor=" + shortJSON(actor)
+				}
+				cs = append(cs, c16case{family: "like", kind: kind, want: "201", name: fmt.Sprintf("Like objects=%v %s%s", shortVals(os), kind, an),
+					body: body, liked: ids,
+					tweak: func(a *ap.App) {
+						a.PutDoc(Doc("Collection", Alice+"/liked", "items", L{"https://r9.example/liked/old1", "https://r9.example/liked/old2"}))
+						a.PutDoc(Doc("Collection", Bob+"/liked", "items", L{"https://r9.example/liked/bobs"}))
+					},
+					model: func(r *Ref) {}})
+			}
 			cs = append(cs, c16case{family: "block", kind: kind, want: "201", name: fmt.Sprintf("Block objects=%v %s", shortVals(os), kind),
 				body: Doc("Block", "", "actor", Alice, "object", val1(os), "to", Carol, "bcc", Dave), noDeliver: true, model: func(r *Ref) {}})
 		}
@@ -375,7 +392,7 @@ func shortVals(l []interface{}) []string {
 func C16(tier string) int {
 	res := NewResult("C16", tier, "exploration")
 	cases := c16cases(res.Thorough())
-	res.Rule = fmt.Sprintf("Update: stored object with each subset of {name, content, summary, an unknown member} x update object assigning each member in {absent, new value, null}; two objects with every pair of independent assignments (81 x 81) and three-object triples; Delete: 1..%d objects of 3 types with/without published/updated, IRI/embedded, model clock; Add/Remove: every sequence of 1..%d objects (IRI/embedded) x every sequence of distinct targets over {owned Collection with duplicates, owned OrderedCollection with duplicates, foreign}, the stored collections spelling their entries as IRIs or as a mixture of IRIs, embedded objects and a Link named by href; Like and Block with the same object sequences; each type with object/target absent or empty; Social-only and both protocols; every Like / Block and every third other request again with application hooks wrapped around the default callbacks; %d base requests; plus every ordered pair (thorough: a third of the triples) of single-object Add / Remove / Like requests as a history on ONE application, the reference model applied step by step; oracle: a reference model on JSON (merge + null deletion, Tombstone fields, collection edits on owned targets only, liked front insertion, Block undelivered, 400 and unchanged state for missing members)", map[bool]int{false: 2, true: 3}[res.Thorough()], map[bool]int{false: 2, true: 3}[res.Thorough()], len(cases))
+	res.Rule = fmt.Sprintf("Update: stored object with each subset of {name, content, summary, an unknown member} x update object assigning each member in {absent, new value, null}; two objects with every pair of independent assignments (81 x 81) and three-object triples; Delete: 1..%d objects of 3 types with/without published/updated, IRI/embedded, model clock; Add/Remove: every sequence of 1..%d objects (IRI/embedded) x every sequence of distinct targets over {owned Collection with duplicates, owned OrderedCollection with duplicates, foreign}, the stored collections spelling their entries as IRIs or as a mixture of IRIs, embedded objects and a Link named by href; Like and Block with the same object sequences, Like also with its 'actor' naming another local actor / several actors / a remote actor / nobody (the ids go to the liked collection of the outbox's owner); each type with object/target absent or empty; Social-only and both protocols; every Like / Block and every third other request again with application hooks wrapped around the default callbacks; %d base requests; plus every ordered pair (thorough: a third of the triples) of single-object Add / Remove / Like requests as a history on ONE application, the reference model applied step by step; oracle: a reference model on JSON (merge + null deletion, Tombstone fields, collection edits on owned targets only, liked front insertion, Block undelivered, 400 and unchanged state for missing members)", map[bool]int{false: 2, true: 3}[res.Thorough()], map[bool]int{false: 2, true: 3}[res.Thorough()], len(cases))
 	res.Assumptions = []string{"JSON nulls are looked for inside the activity's object (ActivityPub 6.3.1), which is what the statement's wording names", "the stored copy of the activity and the outbox entry are C05's",
 		"one collection named twice as target is excluded here (C09's known finding)"}
 	var mu sync.Mutex
